@@ -74,9 +74,13 @@ def run_level(h, s, ref, levels):
         # an integer-valued history handed over as Python ints / an int64 array together with fractional levels
         import numpy as np
         data = [v >> s for v in h] if sum(h) % 2 else np.array([v >> s for v in h], dtype=np.int64)
+    forced = FORCE_DTYPE.get(tuple(h))
+    if forced is not None and s == 0:
+        import numpy as np
+        data = np.array(h, dtype=forced)
     try:
         seq = lcc.astmLevelCrossingCounting(cyc.as_container(data, h, s) if isinstance(data, list) and isinstance(data[0], float) else data, aggregate=False, **kw)
-        agg = lcc.astmLevelCrossingCounting(list(data), aggregate=True, **kw)
+        agg = lcc.astmLevelCrossingCounting(data if forced is not None else list(data), aggregate=True, **kw)
     except ValueError:
         return {'error': 'ValueError'}
     except Exception as e:  # noqa
@@ -163,7 +167,10 @@ def explore(res, rng, n, extra=()):
     res.samples += [{'history': c[0], 'scale_2^-s': c[1], 'ref': c[2], 'levels': c[3]} for c in cases[len(extra):len(extra) + 3]]
 
 
-CORPUS = [([5 * 2, 11, 11, 0], 1, 0, None), ([0, -3, -3, 0, 1], 0, 0, None), ([0, 3, 0, 3], 0, 1, [1, 2]),
+# full-scale records in narrow integer dtypes and a single-precision record above 2^24 (default level grids)
+FORCE_DTYPE = {(0, 255, 3): 'uint8', (-128, 127, 0): 'int8', (-100, 100): 'int8',
+               (200000000, 200000096, 200000032): 'float32', (16777216, 16777226, 16777220): 'float32'}
+CORPUS = [(list(k), 0, 0, None) for k in FORCE_DTYPE] + [([5 * 2, 11, 11, 0], 1, 0, None), ([0, -3, -3, 0, 1], 0, 0, None), ([0, 3, 0, 3], 0, 1, [1, 2]),
           ([3, 0, 3, 0], 0, 5, [1, 2])]
 
 
